@@ -133,35 +133,32 @@ def run(ctx):
         for pattern in itertools.product((False, True), repeat=3):
             tests = []
 
-            def bpol(test, ev, env, pattern=pattern, tests=tests):
+            def signs(prim, node=None, pattern=pattern, tests=tests):
+                # pattern[k] True: this diagonal entry of the triangular factor is negative (zero excluded: R is non-singular)
+                a = single_atom(prim)
+                for k in range(3):
+                    if a == "R[%d,%d]" % (k, k):
+                        tests.append(k)
+                        return -1 if pattern[k] else 1
+                return None
+
+            def bpol(test, ev, env):
                 if N.skip_checks_policy(test, ev, env) is False:
                     return False
-                if isinstance(test, ast.Compare) and len(test.ops) == 1 \
-                        and isinstance(test.ops[0], (ast.Lt, ast.LtE, ast.Gt, ast.GtE)) \
-                        and isinstance(test.comparators[0], ast.Constant) and test.comparators[0].value == 0:
-                    a = single_atom(scalar(ev.eval(test.left, env)))
-                    for k in range(3):
-                        if a == "R[%d,%d]" % (k, k):
-                            tests.append(k)
-                            # pattern[k] True: this diagonal entry is negative (zero excluded: R is non-singular)
-                            return pattern[k] if isinstance(test.ops[0], (ast.Lt, ast.LtE)) else not pattern[k]
-                    # the diagonal entry may already have been negated by its own block: -R[k,k] cannot occur before its test
-                    raise AnalysisError("ub_to_u_b: sign test on `%s`, not on a diagonal entry of the triangular factor"
-                                        % core.unparse(test.left))
-                # any other data-dependent test: the generic configuration does not satisfy it; the special arm is
-                # analysed separately below
-                if not isinstance(test, ast.Attribute):
-                    try:
-                        v_ = ev.eval(test, env)
-                        if isinstance(v_, bool):
-                            return None
-                    except AnalysisError:
-                        pass
-                    if ast.dump(test) not in [ast.dump(t_) for t_ in special]:
-                        special.append(test)
-                    return False
-                return None
-            ev = Evaluator(mod, inline=set(), branch_policy=bpol)
+                if isinstance(test, ast.Attribute):
+                    return None
+                try:
+                    v_ = ev.eval(test, env)
+                    if isinstance(v_, bool):
+                        return v_
+                except AnalysisError:
+                    pass
+                # a data-dependent test that is not decided by the signs of diag(R): the generic configuration does not
+                # satisfy it; the special arm (fast path / early return) is analysed separately below
+                if ast.dump(test) not in [ast.dump(t_) for t_ in special]:
+                    special.append(test)
+                return False
+            ev = Evaluator(mod, inline=set(), branch_policy=bpol, sign_policy=signs)
             qr_args = []
 
             class _E(Evaluator):
@@ -180,7 +177,7 @@ def run(ctx):
                 ctx.fail(key, "ub_to_u_b does not return the two factors of one QR factorisation of its argument", where)
                 continue
             (fu, _s1), (fb, _s2) = flat(out[0]), flat(out[1])
-            ok = sorted(tests) == [0, 1, 2]
+            ok = sorted(set(tests)) == [0, 1, 2]
             for i in range(3):
                 for j in range(3):
                     sj = -1 if pattern[j] else 1
